@@ -5,6 +5,7 @@ package sim
 // byte streams; the handler is the reference device. Serves C15 and C16.
 
 import (
+	"bytes"
 	"context"
 	"errors"
 	"fmt"
@@ -85,6 +86,7 @@ type SrvOutcome struct {
 	SubjectSrv *Conn // server end of connection 0 (transport record)
 	ServeDone  bool
 	Hang       bool
+	HeldBad    string // a request kept by the handler changed after the call
 	OverStep   bool
 }
 
@@ -107,6 +109,12 @@ type srvHandler struct {
 	out       *SrvOutcome
 	mu        sync.Mutex
 	n         int
+	held      []heldReq // requests the handler was given, kept beyond the call (a journalling handler does that)
+}
+
+type heldReq struct {
+	req packet.Request
+	was []byte
 }
 
 func (h *srvHandler) device(unit byte) *Device {
@@ -129,6 +137,9 @@ func (h *srvHandler) Handle(ctx context.Context, req packet.Request) (packet.Res
 	seq := h.n
 	h.out.Handled = append(h.out.Handled, tid)
 	m := h.modes[tid]
+	if !h.s.Free {
+		h.held = append(h.held, heldReq{req, append([]byte(nil), b...)})
+	}
 	h.mu.Unlock()
 	h.s.Logf("handle tid=%d fc=%d ok=%v", tid, req.FunctionCode(), ok)
 	mode, code, work := HNormal, byte(4), time.Duration(0)
@@ -365,6 +376,18 @@ func RunSrv(rc *RunCtx, sc *SrvScenario, sched *Tape, seed uint64, twinReplyLens
 	out.Hang, out.OverStep = s.Hang, s.OverStep
 	s.Drain()
 	out.Panics = s.Panics
+	// a request object handed to the handler is the handler's to keep: later traffic must not rewrite it
+	for i, hr := range h.held {
+		if now := safeBytes(hr.req); !bytes.Equal(now, hr.was) {
+			out.HeldBad = fmt.Sprintf("request #%d handed to the handler encoded to %x then and to %x after the rest of the traffic", i, trunc(hr.was, 24), trunc(now, 24))
+			break
+		}
+	}
 	rc.finishFrom(s)
 	return out
+}
+
+func safeBytes(r packet.Request) (b []byte) {
+	defer func() { recover() }()
+	return r.Bytes()
 }
